@@ -1,5 +1,28 @@
-//! C17: fallback. script = [strategy, pred_mode, value, req, inner_kind, inner_val, backup_kind, backup_val]
+//! C17: fallback.
+//! script = [strategy, pred_mode, value, req, inner_kind, inner_val, backup_kind, backup_val] ++ (op, a, b)*
+//!   strategy 0..5 = value, value_fn, from_error, from_request_error, service, exception
+//!   pred_mode: bits 0-1 predicate (0 none, 1 even errors, 2 all, 3 none accepted); bit 2: handle() BEFORE the
+//!     strategy setter; bits 3..: builder route: +8 name() first, +16 on_event() between the two setters,
+//!     +32 name() and on_event() last, +64 a decoy strategy setter before the real one, +128 the convenience
+//!     constructor of layer.rs (only when there is no predicate; the other route bits are then ignored)
+//!   ops: 1 CALL (a: 0 the service, 1 a long-lived clone, 2 a fresh clone; b = request) -> new future, not polled
+//!        2 POLL a; 3 INNER_DONE (call a, outcome b); 4 BACKUP_DONE (call a, outcome b); 5 DROP a;
+//!        6 READY_FAIL (a handle, b error): the inner service's next poll_ready fails with b, poll_ready on handle a
+//!        outcome b: b mod 4 = 0 Ok(b div 4), 1 Err(b div 4), 2/3 panic
+//!   without ops: CALL req; POLL; INNER_DONE (header outcome); POLL; BACKUP_DONE (header outcome); POLL
+//! Futures are polled by hand; the inner and the backup service answer when the script says so. Every closure
+//! handed to the layer (predicate, value_fn, from_error, from_request_error, exception, backup, inner) logs its
+//! invocation with its arguments, tagged with the call whose future is being polled at that moment.
+//! trace = [n_calls; (kind, payload)*; n_ready; (kind, payload)*; n_ops; flag*; n_events; (call, kind, a, b)*]
+//!   result kind 0 Ok, 1 Err(Inner), 2 Err(FallbackFailed), 3 panicked, 4 dropped, 5 not finished
+//!   event kind 0 inner(req), 1 predicate(e), 2 value_fn, 3 from_error(e), 4 from_request_error(req, e),
+//!              5 backup(req), 6 exception(e); call = -1 outside any poll / call()
+use std::collections::HashMap;
+use std::future::Future;
+use std::pin::Pin;
 use std::sync::{Arc, Mutex};
+use std::task::{Context, Poll};
+use tokio::sync::oneshot;
 use tower::{Layer, Service};
 use tower_resilience_fallback::{FallbackError, FallbackLayer};
 use verif_harness::*;
@@ -8,68 +31,229 @@ fn fe(e: i128) -> i128 { 1000 + 3 * e }
 fn fre(r: i128, e: i128) -> i128 { 2000 + 37 * r + e }
 fn fx(e: i128) -> i128 { 5000 + 7 * e }
 
-fn run(s: &[i128]) -> Vec<i128> {
-    let (st, pm, v, req) = (zn(s, 0), zn(s, 1), zn(s, 2), zn(s, 3));
-    let (ik, iv, bk, bv) = (zn(s, 4), zn(s, 5), zn(s, 6), zn(s, 7));
-    let inner_log = Arc::new(Mutex::new(Vec::<i128>::new()));
-    let backup_log = Arc::new(Mutex::new(Vec::<i128>::new()));
-    let il = inner_log.clone();
-    let inner = tower::service_fn(move |r: i128| {
-        il.lock().unwrap().push(r);
-        async move { if ik == 0 { Ok::<i128, i128>(iv + 11 * r) } else { Err(iv) } }
-    });
-    let pm_mode = pm % 4;
-    let handle_first = pm >= 4;      // builder order: handle() before the strategy setter
-    let b = FallbackLayer::<i128, i128, i128>::builder();
-    let b = if handle_first {
-        match pm_mode {
-            0 => b,
-            1 => b.handle(|e: &i128| e % 2 == 0),
-            2 => b.handle(|_e: &i128| true),
-            _ => b.handle(|_e: &i128| false),
-        }
-    } else { b };
-    let b = match st {
-        0 => b.value(v),
-        1 => b.value_fn(move || v + 1),
-        2 => b.from_error(|e: &i128| fe(*e)),
-        3 => b.from_request_error(|r: &i128, e: &i128| fre(*r, *e)),
-        4 => {
-            let bl = backup_log.clone();
-            b.service(move |r: i128| {
-                bl.lock().unwrap().push(r);
-                async move { if bk == 0 { Ok::<i128, i128>(bv + 13 * r) } else { Err(bv) } }
-            })
-        }
-        _ => b.exception(|e: i128| fx(e)),
-    };
-    let b = if !handle_first {
-        match pm_mode {
-            0 => b,
-            1 => b.handle(|e: &i128| e % 2 == 0),
-            2 => b.handle(|_e: &i128| true),
-            _ => b.handle(|_e: &i128| false),
-        }
-    } else { b };
-    let layer = b.build();
-    let mut svc = layer.layer(inner);
-    let rt = paused_rt();
-    let out = rt.block_on(async move {
-        futures::future::poll_fn(|cx| svc.poll_ready(cx)).await.unwrap();
-        svc.call(req).await
-    });
-    let il = inner_log.lock().unwrap();
-    let bl = backup_log.lock().unwrap();
-    let mut tr = vec![
-        il.len() as i128, il.first().copied().unwrap_or(-1),
-        bl.len() as i128, bl.first().copied().unwrap_or(-1),
-    ];
-    match out {
-        Ok(x) => tr.extend([0, x]),
-        Err(FallbackError::Inner(e)) => tr.extend([1, e]),
-        Err(FallbackError::FallbackFailed(e)) => tr.extend([2, e]),
+#[derive(Default)]
+struct Shared {
+    cur: Mutex<i128>,
+    events: Mutex<Vec<[i128; 4]>>,
+    inner_tx: Mutex<HashMap<i128, oneshot::Sender<Outcome>>>,
+    backup_tx: Mutex<HashMap<i128, oneshot::Sender<Outcome>>>,
+    ready_err: Mutex<Option<i128>>,
+}
+
+impl Shared {
+    fn ev(&self, kind: i128, a: i128, b: i128) {
+        let k = *self.cur.lock().unwrap();
+        self.events.lock().unwrap().push([k, kind, a, b]);
     }
-    tr
+}
+
+type Fut = Pin<Box<dyn Future<Output = Result<i128, i128>> + Send>>;
+
+fn gated(rx: oneshot::Receiver<Outcome>) -> Fut {
+    Box::pin(async move {
+        match rx.await {
+            Ok(Outcome::Ok(v)) => Ok(v),
+            Ok(Outcome::Err(e)) => Err(e),
+            Ok(Outcome::Panic) => panic!("scripted panic"),
+            Err(_) => std::future::pending().await,
+        }
+    })
+}
+
+#[derive(Clone)]
+struct Inner(Arc<Shared>);
+
+impl Service<i128> for Inner {
+    type Response = i128;
+    type Error = i128;
+    type Future = Fut;
+    fn poll_ready(&mut self, _cx: &mut Context<'_>) -> Poll<Result<(), i128>> {
+        match self.0.ready_err.lock().unwrap().take() {
+            Some(e) => Poll::Ready(Err(e)),
+            None => Poll::Ready(Ok(())),
+        }
+    }
+    fn call(&mut self, req: i128) -> Fut {
+        self.0.ev(0, req, 0);
+        let k = *self.0.cur.lock().unwrap();
+        let (tx, rx) = oneshot::channel();
+        self.0.inner_tx.lock().unwrap().insert(k, tx);
+        gated(rx)
+    }
+}
+
+fn outcome(b: i128) -> Outcome {
+    match b.rem_euclid(4) {
+        0 => Outcome::Ok(b.div_euclid(4)),
+        1 => Outcome::Err(b.div_euclid(4)),
+        _ => Outcome::Panic,
+    }
+}
+
+fn build(s: &[i128], sh: &Arc<Shared>) -> FallbackLayer<i128, i128, i128> {
+    let (st, pm, v) = (zn(s, 0), zn(s, 1), zn(s, 2));
+    let pm_mode = pm.rem_euclid(4);
+    let handle_first = (pm >> 2) & 1 == 1; // builder order: handle() before the strategy setter
+    let route = pm >> 3;
+    if route & 16 != 0 && pm_mode == 0 {
+        // the convenience constructors of layer.rs
+        let sh = sh.clone();
+        return match st {
+            0 => FallbackLayer::value(v),
+            1 => FallbackLayer::value_fn(move || { sh.ev(2, 0, 0); v + 1 }),
+            2 => FallbackLayer::from_error(move |e: &i128| { sh.ev(3, *e, 0); fe(*e) }),
+            3 => FallbackLayer::from_request_error(move |r: &i128, e: &i128| { sh.ev(4, *r, *e); fre(*r, *e) }),
+            4 => FallbackLayer::service(move |r: i128| {
+                sh.ev(5, r, 0);
+                let k = *sh.cur.lock().unwrap();
+                let (tx, rx) = oneshot::channel();
+                sh.backup_tx.lock().unwrap().insert(k, tx);
+                gated(rx)
+            }),
+            _ => FallbackLayer::exception(move |e: i128| { sh.ev(6, e, 0); fx(e) }),
+        };
+    }
+    let b = FallbackLayer::<i128, i128, i128>::builder();
+    let b = if route & 1 != 0 { b.name("verif-first") } else { b };
+    let with_handle = |b: tower_resilience_fallback::FallbackConfigBuilder<i128, i128, i128>| {
+        let (s1, s2, s3) = (sh.clone(), sh.clone(), sh.clone());
+        match pm_mode {
+            0 => b,
+            1 => b.handle(move |e: &i128| { s1.ev(1, *e, 0); e % 2 == 0 }),
+            2 => b.handle(move |e: &i128| { s2.ev(1, *e, 0); true }),
+            _ => b.handle(move |e: &i128| { s3.ev(1, *e, 0); false }),
+        }
+    };
+    let with_strategy = |b: tower_resilience_fallback::FallbackConfigBuilder<i128, i128, i128>| {
+        let sh = sh.clone();
+        // a strategy setter replaces the strategy chosen before
+        let b = if route & 8 != 0 { if st == 0 { b.value_fn(|| -777) } else { b.value(-777) } } else { b };
+        match st {
+            0 => b.value(v),
+            1 => b.value_fn(move || { sh.ev(2, 0, 0); v + 1 }),
+            2 => b.from_error(move |e: &i128| { sh.ev(3, *e, 0); fe(*e) }),
+            3 => b.from_request_error(move |r: &i128, e: &i128| { sh.ev(4, *r, *e); fre(*r, *e) }),
+            4 => b.service(move |r: i128| {
+                sh.ev(5, r, 0);
+                let k = *sh.cur.lock().unwrap();
+                let (tx, rx) = oneshot::channel();
+                sh.backup_tx.lock().unwrap().insert(k, tx);
+                gated(rx)
+            }),
+            _ => b.exception(move |e: i128| { sh.ev(6, e, 0); fx(e) }),
+        }
+    };
+    // the listener observes only (C20 covers listeners); it must not change anything here
+    let listener = |_e: &tower_resilience_fallback::FallbackEvent| {};
+    let b = if handle_first { with_handle(b) } else { with_strategy(b) };
+    let b = if route & 2 != 0 { b.on_event(listener) } else { b };
+    let b = if handle_first { with_strategy(b) } else { with_handle(b) };
+    let b = if route & 4 != 0 { b.name("verif-last").on_event(listener) } else { b };
+    b.build()
+}
+
+fn run(s: &[i128]) -> Vec<i128> {
+    let sh = Arc::new(Shared::default());
+    *sh.cur.lock().unwrap() = -1;
+    let layer = build(s, &sh);
+    let mut svc = layer.layer(Inner(sh.clone()));
+    let mut clone = svc.clone();
+    let mut ops: Vec<(i128, i128, i128)> = s.get(8..).unwrap_or(&[]).chunks_exact(3).map(|c| (c[0], c[1], c[2])).collect();
+    if ops.is_empty() {
+        let req = zn(s, 3);
+        let io = if zn(s, 4) == 0 { 4 * (zn(s, 5) + 11 * req) } else { 4 * zn(s, 5) + 1 };
+        let bo = if zn(s, 6) == 0 { 4 * (zn(s, 7) + 13 * req) } else { 4 * zn(s, 7) + 1 };
+        ops = vec![(1, 0, req), (2, 0, 0), (3, 0, io), (2, 0, 0), (4, 0, bo), (2, 0, 0)];
+    }
+    let rt = paused_rt();
+    rt.block_on(async move {
+        let mut futs: Vec<Manual<Result<i128, FallbackError<i128>>>> = Vec::new();
+        let mut dropped: Vec<bool> = Vec::new();
+        let mut ready: Vec<i128> = Vec::new();
+        let mut flags: Vec<i128> = Vec::new();
+        let w = std::task::Waker::from(Arc::new(Flag(std::sync::atomic::AtomicBool::new(false))));
+        for (o, a, b) in ops {
+            let valid = a >= 0 && (a as usize) < futs.len();
+            let flag = match o {
+                1 => {
+                    let k = futs.len() as i128;
+                    *sh.cur.lock().unwrap() = k;
+                    let mut cx = Context::from_waker(&w);
+                    let f = match a {
+                        0 => { let _ = svc.poll_ready(&mut cx); svc.call(b) }
+                        1 => { let _ = clone.poll_ready(&mut cx); clone.call(b) }
+                        _ => { let mut c = svc.clone(); let _ = c.poll_ready(&mut cx); c.call(b) }
+                    };
+                    *sh.cur.lock().unwrap() = -1;
+                    futs.push(Manual::new(f));
+                    dropped.push(false);
+                    true
+                }
+                2 if valid && futs[a as usize].alive() => {
+                    *sh.cur.lock().unwrap() = a;
+                    futs[a as usize].poll();
+                    *sh.cur.lock().unwrap() = -1;
+                    true
+                }
+                3 if valid => match sh.inner_tx.lock().unwrap().remove(&a) {
+                    Some(tx) => { let _ = tx.send(outcome(b)); true }
+                    None => false,
+                },
+                4 if valid => match sh.backup_tx.lock().unwrap().remove(&a) {
+                    Some(tx) => { let _ = tx.send(outcome(b)); true }
+                    None => false,
+                },
+                5 if valid && futs[a as usize].alive() => {
+                    futs[a as usize].drop_fut();
+                    dropped[a as usize] = true;
+                    sh.inner_tx.lock().unwrap().remove(&a);
+                    sh.backup_tx.lock().unwrap().remove(&a);
+                    true
+                }
+                6 => {
+                    *sh.ready_err.lock().unwrap() = Some(b);
+                    let mut cx = Context::from_waker(&w);
+                    let r = match a {
+                        0 => svc.poll_ready(&mut cx),
+                        1 => clone.poll_ready(&mut cx),
+                        _ => svc.clone().poll_ready(&mut cx),
+                    };
+                    *sh.ready_err.lock().unwrap() = None;
+                    match r {
+                        Poll::Ready(Err(FallbackError::Inner(e))) => ready.extend([1, e]),
+                        Poll::Ready(Err(FallbackError::FallbackFailed(e))) => ready.extend([2, e]),
+                        Poll::Ready(Ok(())) => ready.extend([0, 0]),
+                        Poll::Pending => ready.extend([5, 0]),
+                    }
+                    true
+                }
+                _ => false,
+            };
+            flags.push(flag as i128);
+            settle().await;
+        }
+        let mut tr = vec![futs.len() as i128];
+        for (m, d) in futs.iter().zip(dropped.iter()) {
+            match (&m.done, m.panicked, *d) {
+                (Some(Ok(x)), _, _) => tr.extend([0, *x]),
+                (Some(Err(FallbackError::Inner(e))), _, _) => tr.extend([1, *e]),
+                (Some(Err(FallbackError::FallbackFailed(e))), _, _) => tr.extend([2, *e]),
+                (None, true, _) => tr.extend([3, 0]),
+                (None, false, true) => tr.extend([4, 0]),
+                (None, false, false) => tr.extend([5, 0]),
+            }
+        }
+        tr.push((ready.len() / 2) as i128);
+        tr.extend(ready);
+        tr.push(flags.len() as i128);
+        tr.extend(flags);
+        let ev = sh.events.lock().unwrap();
+        tr.push(ev.len() as i128);
+        for e in ev.iter() {
+            tr.extend(e.iter().copied());
+        }
+        tr
+    })
 }
 
 fn main() { main_loop(run); }
